@@ -327,6 +327,12 @@ TIER = ['quick']
 def build(tier, seed):
     chk = runner.Check('C19', tier, seed)
     TIER[0] = tier
+    chk.unreachable_ok = {
+        'C19.create.retry.step.':
+            'another attempt is made only after a duplicate *id*, which needs '
+            'a concurrent writer between max(id) and the INSERT; within the '
+            'one transaction the sequential model runs (A-nofault) the id is '
+            'fresh, so the retry branch is dead there'}
     language_lemmas(chk)
     for route, method, wobj in H.routes():
         if (method, route) in CREATE_OPS:
